@@ -141,6 +141,19 @@ impl ArcRtt {
     pub fn try_backoff_rtt(&self) {
         self.0.lock().unwrap().try_backoff_rtt();
     }
+
+    /// Verification hook (read-only): `(latest_rtt, smoothed_rtt, rttvar, min_rtt, has_sample)`.
+    #[cfg(genmeta_gm_quic_verif)]
+    pub fn verif_state(&self) -> (Duration, Duration, Duration, Duration, bool) {
+        let rtt = self.0.lock().unwrap();
+        (
+            rtt.latest_rtt,
+            rtt.smoothed_rtt,
+            rtt.rttvar,
+            rtt.min_rtt,
+            rtt.first_rtt_sample.is_some(),
+        )
+    }
 }
 
 #[cfg(test)]
